@@ -64,7 +64,8 @@ type InheritCfg struct {
 	// used blocks are imported under each other's names.
 	// TopBlockFn: the template directly below the root assigns block('a') to a
 	// variable at its top level (1: plainly, 2: under an if, 3: inside a
-	// capture under an if); the root prints the variable after its layout.
+	// capture under an if; 4, 5: a block defined inside a capture under an if /
+	// a for); the root prints the variable after its layout.
 	TopBlockFn int `json:"top_block_fn,omitempty"`
 	// RootUse: the root of the chain (which extends nothing) imports template
 	// "u" as well: what it uses ranks below its own blocks.
@@ -144,8 +145,20 @@ func BuildInherit(c *InheritCfg) *m.Program {
 					t.Body = append(t.Body, &m.N{K: "set", S: "tb", X: call})
 				case 2:
 					t.Body = append(t.Body, &m.N{K: "if", X: m.EName("sel"), Body: []*m.N{{K: "set", S: "tb", X: call}}})
-				default:
+				case 3:
 					t.Body = append(t.Body, &m.N{K: "if", X: m.EName("sel"), Body: []*m.N{{K: "setcap", S: "tb", Body: []*m.N{m.NText("<"), m.NPrint(call), m.NText(">")}}}})
+				case 4:
+					// a block *defined* inside the capture: its text belongs to
+					// the captured value, in place
+					capb := &m.N{K: "block", S: "capb", Body: []*m.N{m.NText("CB("), whoCall(), m.NText(")")}}
+					t.Body = append(t.Body, &m.N{K: "if", X: m.EName("sel"), Body: []*m.N{{K: "setcap", S: "tb", Body: []*m.N{m.NText("<"), capb, m.NText(">")}}}})
+				default:
+					// the same under a loop, one capture per iteration
+					capb := &m.N{K: "block", S: "capb", Body: []*m.N{m.NText("#"), m.NPrint(m.EName("g2"))}}
+					t.Body = append(t.Body, &m.N{K: "set", S: "tb", X: m.EStr("")},
+						&m.N{K: "for", S: "g2", X: m.EBin("..", m.ENum(1), m.ENum(2)), Body: []*m.N{
+							{K: "setcap", S: "box", Body: []*m.N{m.NText("("), capb, m.NText(")")}},
+							{K: "set", S: "tb", X: m.EBin("~", m.EName("tb"), m.EName("box"))}}})
 				}
 			}
 			for ni := 0; ni < c.Names; ni++ {
@@ -297,7 +310,7 @@ func GenInherit(t *rapid.T) *InheritCfg {
 	c.NestOver = rapid.Bool().Draw(t, "nestover")
 	c.RootUse = rapid.IntRange(0, 4).Draw(t, "rootuse") == 0
 	if c.L >= 2 && rapid.IntRange(0, 3).Draw(t, "topblockfn") == 0 {
-		c.TopBlockFn = rapid.IntRange(1, 3).Draw(t, "tbf")
+		c.TopBlockFn = rapid.IntRange(1, 5).Draw(t, "tbf")
 	}
 	if rapid.IntRange(0, 3).Draw(t, "guarded") == 0 {
 		c.Guard = rapid.IntRange(1, 4).Draw(t, "guard")
